@@ -4,6 +4,7 @@ CONSTANTS
   MaxLines = 4
   LimitN = 3
   MaxFds = 0
+  DeferPop = FALSE
   Guided = TRUE
   TSet = {1, 2, 5, 8, 10, 12, 14, 15, 19, 16, 21, 22, 23}
 INVARIANTS Refines StructOK FreshAfterError BodyBound ContinueRule FilesOrdered AttachRule Witnesses
